@@ -321,10 +321,35 @@ let c10 (payload : string) : string =
     Printf.sprintf "[%s] %s" log err
   | _ -> "bad"
 
+(* ---------------- C17: broadcast / fork / inform ---------------- *)
+let c17 (payload : string) : string =
+  (* <op> <v: ok7,svc,lost,slow> <order: 2,0,1> ; error ids: svc=1 lost=2 slow=3 *)
+  match split_on ' ' payload with
+  | [op; vs; os] ->
+    let v = List.map (fun t ->
+      if String.length t > 2 && String.sub t 0 2 = "ok" then MOk (nat_of_int (int_of_string (String.sub t 2 (String.length t - 2))))
+      else MFail (nat_of_int (match t with "svc" -> 1 | "lost" -> 2 | _ -> 3))) (String.split_on_char ',' vs) in
+    let order = List.map (fun t -> nat_of_int (int_of_string t)) (String.split_on_char ',' os) in
+    let ename e = (match int_of_nat e with 1 -> "svc" | 2 -> "lost" | _ -> "slow") in
+    let show_reply ok r = if ok then (match r with Some x -> string_of_int (int_of_nat x) | None -> "none") else "*" in
+    (match op with
+     | "B" -> let (errs, rep) = broadcast v order in
+       Printf.sprintf "%s reply=%s" (if errs = [] then "nil" else "err") (show_reply (errs = []) rep)
+     | "F" -> let (errs, rep) = fork v order in
+       Printf.sprintf "%s reply=%s" (if errs = [] then "nil" else "err") (show_reply (errs = []) rep)
+     | _ -> let ((rs, errs), rep) = inform v order in
+       let rs = List.sort compare (List.map (fun ((i, r), e) ->
+         Printf.sprintf "s%d:%s:%s" (int_of_nat i)
+           (match r with Some x -> string_of_int (int_of_nat x) | None -> "-")
+           (match e with Some e -> ename e | None -> "nil")) rs) in
+       Printf.sprintf "%s [%s] reply=%s" (if errs = [] then "nil" else "err") (String.concat "," rs) (show_reply (errs = []) rep))
+  | _ -> "bad"
+
 let () =
   let prop = Sys.argv.(1) in
   let f = match prop with
     | "C12" -> c12
+    | "C17" -> c17
     | "C10" -> c10
     | "C03" | "C05" | "C06" -> csm
     | "C18" -> c18
